@@ -100,6 +100,16 @@ def check(ctx):
     check_reconcile_one_sided(ctx)
     # single-child parents (the root included) are exempt from needing
     # markers wherever the table is validated or consulted (rule of C08)
+    # ... and for such a parent (no markers, an empty position array in
+    # the cache) every reader of the cache still works (sa/rules/roles.py)
+    from ..rules import roles as R_
+    for q_ in ('type_assignment.election:run_type_assignment_on_h5ad_cpu',
+               'type_assignment.matching:assemble_query_data',
+               'type_assignment.marker_cache_v2:serialize_markers'):
+        R_.check_positions_not_fancy_indexed_raw(ctx, ctx.db.fn(q_))
+    ctx.ok('R-ROLE/positions-as-stored', 'cache readers', 'package',
+           'no reader uses a position dataset of the cache as a fancy '
+           'index without giving it an integer type', nontrivial=False)
     from .C08 import check_single_child
     check_single_child(ctx)
     from .C10 import check_node_identity
